@@ -3,6 +3,7 @@ package c18
 import (
 	"math"
 	"reflect"
+	"strings"
 )
 
 // val is one named element of a domain. v == nil stands for the nil interface (interface kind only).
@@ -75,8 +76,24 @@ func ifaceEq(x, y val) (bool, bool) {
 	if reflect.TypeOf(x.v) != reflect.TypeOf(y.v) {
 		return false, false
 	}
+	if reflect.TypeOf(x.v).Kind() == reflect.Func {
+		return funcEq(x, y) // funcs by identity, also inside an interface-typed parameter
+	}
 	return reflect.DeepEqual(x.v, y.v), true
 }
+
+// funcPtrEq: pointers by pointee, funcs by identity; the domain names the pointee ("&F1", "&F1#2").
+func funcPtrEq(x, y val) (bool, bool) {
+	base := func(n string) string {
+		if i := strings.Index(n, "#"); i >= 0 {
+			return n[:i]
+		}
+		return n
+	}
+	return base(x.name) == base(y.name), true
+}
+
+func fnp(f func(int) int) *func(int) int { return &f }
 
 func typeOf(p interface{}) reflect.Type { return reflect.TypeOf(p).Elem() }
 
@@ -132,8 +149,10 @@ func kinds() []*kind {
 	add("interface{}", new(interface{}), ifaceEq, true, val{"nil", nil}, val{"int(0)", 0}, val{"int(1)", 1}, val{"int(-1)", -1}, val{"int64(1)", int64(1)}, val{"uint8(1)", uint8(1)}, val{"uint64(max)", maxU64},
 		val{"float64(1)", float64(1)}, val{"float64(0.5)", 0.5}, val{"float32(1)", float32(1)}, val{`"1"`, "1"}, val{`""`, ""}, val{`"a"`, "a"}, val{"true", true}, val{"false", false},
 		val{"S{1,x}", S{1, "x"}}, val{"S{2,x}", S{2, "x"}},
-		val{"&S{1,x}", &S{1, "x"}}, val{"&S{1,x}#2", &S{1, "x"}}, val{"&S{2,x}", &S{2, "x"}}, val{"(*S)(nil)", (*S)(nil)}, val{"&int(1)", intp(1)}, val{"(*int)(nil)", (*int)(nil)})
+		val{"&S{1,x}", &S{1, "x"}}, val{"&S{1,x}#2", &S{1, "x"}}, val{"&S{2,x}", &S{2, "x"}}, val{"(*S)(nil)", (*S)(nil)}, val{"&int(1)", intp(1)}, val{"(*int)(nil)", (*int)(nil)},
+		val{"F1", F1}, val{"F2", F2}, val{"(func(int) int)(nil)", (func(int) int)(nil)})
 	add("error", new(error), ifaceEq, true, val{"nil", nil}, val{"&E{1}", &E{1}}, val{"&E{1}#2", &E{1}}, val{"&E{2}", &E{2}}, val{"(*E)(nil)", (*E)(nil)}, val{"EV{1}", EV{1}}, val{"EV{2}", EV{2}})
 	add("func", new(func(int) int), funcEq, true, val{"nil", (func(int) int)(nil)}, val{"F1", F1}, val{"F2", F2})
+	add("*func", new(*func(int) int), funcPtrEq, true, val{"nil", (*func(int) int)(nil)}, val{"&F1", fnp(F1)}, val{"&F1#2", fnp(F1)}, val{"&F2", fnp(F2)})
 	return ks
 }
